@@ -125,6 +125,8 @@ type State struct {
 	observed []string
 	approx   bool // some feasibility query was unknown
 	tag      string
+	sub      bool  // isolated callee exploration (function-level merging)
+	retVal   Value // result of the top frame
 	ext      map[string]interface{} // engine-side per-state data (iterators etc.)
 }
 
@@ -138,6 +140,7 @@ func (st *State) clone() *State {
 		pan:      st.pan,
 		approx:   st.approx,
 		tag:      st.tag,
+		sub:      st.sub,
 	}
 	n.frames = make([]*Frame, len(st.frames))
 	for i, f := range st.frames {
